@@ -13,6 +13,32 @@ if ! cargo build --release --offline >target/build.log 2>&1; then
   exit 2
 fi
 ./target/release/l21sim check "$ID" --tier "$TIER"; RC=$?
+# "never overflows the stack" depends on the build profile: optimised builds turn some recursions into loops.
+# The scale runs of C10/C11 are therefore repeated with an UNOPTIMISED build of the simulator and the repository.
+case "$ID" in
+  C10|C11)
+    if ! cargo build --offline >target/build-dev.log 2>&1; then
+      echo "HARNESS-ERROR: unoptimised build of l21sim failed"; grep -E "^error" -A8 target/build-dev.log | head -40; exit 2
+    fi
+    if [ "$ID" = C10 ]; then FIRST=3; NR=1; else FIRST=12; NR=3; fi
+    OUTD=$(VERIF_NO_EVIDENCE=1 ./target/debug/l21sim check "$ID" --tier "$TIER" --first $FIRST --runs $NR 2>&1); RCD=$?
+    echo "$OUTD" | grep -E "^VIOLATION|^  class=|^KNOWN-FINDING|^HARNESS" 
+    echo "$OUTD" | grep -E "^check=" | sed 's/^check=/unoptimised-build scale pass: check=/'
+    if [ -z "$VERIF_NO_EVIDENCE" ] && [ -f "/verif/evidence/$ID.json" ]; then
+      python3 - "$ID" "$RCD" "$(echo "$OUTD" | grep -E '^check=' | tail -1)" <<'PY'
+import json,sys
+pid,rc,line=sys.argv[1],int(sys.argv[2]),sys.argv[3]
+p=f'/verif/evidence/{pid}.json'
+e=json.load(open(p))
+e['coverage']['unoptimised_build_scale_pass']={'what':'the scale runs repeated with an opt-level 0 build of simulator + repository (stack depth of recursive code is profile dependent)','exit':rc,'summary':line}
+if rc==1: e['violations']=e.get('violations',0)+1
+json.dump(e,open(p,'w'),indent=1)
+PY
+    fi
+    if [ $RCD -eq 2 ]; then exit 2; fi
+    if [ $RC -eq 0 ] && [ $RCD -ne 0 ]; then RC=$RCD; fi
+    ;;
+esac
 case "$ID" in
   C01|C02|C05|C18)
     cd /verif/realfs || exit 2
